@@ -148,6 +148,8 @@ pub enum Tamper {
     NegatedKey,
     /// C1 whose coordinates are special values #i, #j of {0, 1, p-1, p, N, 2^256-1}; C3/C2 left alone ((0,0) is how some encoders write infinity)
     C1Special(u8, u8),
+    /// like C1OffCurveForged, with the special coordinates #i, #j of {0, 1, p-1, 2, N mod p, 3}: (0,0) is the affine image of a normalised point at infinity
+    C1SpecialForged(u8, u8),
 }
 
 #[derive(Serialize, Deserialize, Hash, Debug, Clone)]
@@ -192,9 +194,15 @@ pub fn check_tamper(c: &TCase) -> CaseResult {
             ct[33..65].copy_from_slice(&to32(&y));
             class = "C1-off-curve";
         }
-        Tamper::C1OffCurveForged(seed) => {
-            let x = from_be(&expand_bytes(*seed, 32)) % pr.p;
-            let y = from_be(&expand_bytes(seed ^ 0xf0, 32)) % pr.p;
+        Tamper::C1OffCurveForged(_) | Tamper::C1SpecialForged(_, _) => {
+            let (x, y) = match &c.tamper {
+                Tamper::C1SpecialForged(i, j) => {
+                    let vals: Vec<BigUint> = vec![BigUint::from(0u32), BigUint::one(), pr.p - 1u32, BigUint::from(2u32), &pr.n % pr.p, BigUint::from(3u32)];
+                    (vals[*i as usize % vals.len()].clone(), vals[*j as usize % vals.len()].clone())
+                }
+                Tamper::C1OffCurveForged(seed) => (from_be(&expand_bytes(*seed, 32)) % pr.p, from_be(&expand_bytes(seed ^ 0xf0, 32)) % pr.p),
+                _ => unreachable!(),
+            };
             let q = Some((r9::fp(&x), r9::fp(&y)));
             if pr.g1.on_curve(&q) {
                 return pass(false, "accidentally-on-curve");
@@ -343,6 +351,7 @@ pub fn tamper_strategy() -> impl Strategy<Value = Tamper> {
         1 => Just(Tamper::C1YPlusP),
         1 => Just(Tamper::NegatedKey),
         1 => (0..6u8, 0..6u8).prop_map(|(i, j)| Tamper::C1Special(i, j)),
+        1 => (0..6u8, 0..6u8).prop_map(|(i, j)| Tamper::C1SpecialForged(i, j)),
         1 => Just(Tamper::None),
         6 => (prop_oneof![3 => Just(0u8), 1 => Just(1u8), 1 => Just(2u8), 1 => Just(3u8)], multi::strategy()).prop_map(|(r, m)| Tamper::Multi(r, m)),
     ]
@@ -467,6 +476,7 @@ pub fn run(ctx: &Ctx) {
             for i in 0..6u8 {
                 for j in 0..6u8 {
                     v.push(TCase { base: b.clone(), tamper: Tamper::C1Special(i, j) });
+                    v.push(TCase { base: b.clone(), tamper: Tamper::C1SpecialForged(i, j) });
                 }
             }
         }
